@@ -236,3 +236,32 @@ Example C04_to_rows_means_flow_routers_nonvacuous :
   /\ means_check N N.eqb ustrN false false ex_router = 4%N /\ means_check N N.eqb ustrN true true ex_router = 4%N.
 Proof. exact ex_router_exportable. Qed.
 Print Assumptions C04_to_rows_means_flow_routers_nonvacuous.
+
+(* COROLLARY: the round trip over the two models.  On the intersection of the family with the fragment of C02
+   (Comp/Refine.v: fragb — no named categories on edges, no split_random, no node ids: so strip_uuids, one action per node, basic
+   nodes / group splits / the rows the fragment covers), the flow the compiler model makes of the exported rows and the original flow
+   are both trace-equal, labels matched up to the names the sheet does not fix, to one reference flow: the meaning of the rows.
+   (Exp/MeansComp.v; only composes C04_to_rows_means_flow_partial with C02_compile_refines_rowsem_std.) *)
+From RPFT Require Import Comp.Compile Comp.Refine Exp.MeansComp.
+Theorem C04_roundtrip_model_partial :
+  loose_exit_rows = true -> pairs_follow_cases = true -> split_rows_carry_save_name = true -> group_split_without_cases_exports = true ->
+  compile_checks_node_uuids = true ->
+  forall (U : Type) (ueqb : U -> U -> bool), (forall a b, ueqb a b = true <-> a = b) ->
+  forall (ustr : U -> str), (forall a b, ustr a = ustr b -> a = b) -> (forall a, ustr a <> []) ->
+  forall numbered (ns : list (ToRows.node U)) rows name f,
+    exportable U ueqb ns = true -> single_rows U ns = true ->
+    to_rows ueqb numbered ns = Ok rows -> fragb (crows_of U ustr rows) = true ->
+    compile std_fresh name (crows_of U ustr rows) = Ok f ->
+    exists ref, rowsem Means.nab (abs_rows U ustr true rows) = Some ref
+      /\ (forall t, traces (flow_of U ustr ns) t -> exists t', traces ref t' /\ Forall2 (ematch sexp (fun a b => smatch b a)) t t')
+      /\ (forall t, traces ref t -> exists t', traces (flow_of U ustr ns) t' /\ Forall2 (ematch sexp smatch) t t')
+      /\ (forall t, traces ref t -> exists t', traces f t' /\ Forall2 (ematch sexp smatch) t t')
+      /\ (forall t, traces f t -> exists t', traces ref t' /\ Forall2 (ematch sexp (fun a b => smatch b a)) t t').
+Proof. exact roundtrip_model_partial. Qed.
+Print Assumptions C04_roundtrip_model_partial.
+
+(* non-vacuity: message -> group split (member: on; otherwise back to the start: a cycle) -> message: in the family, in the
+   fragment, and the compiler model makes a flow of three nodes of its exported rows *)
+Example C04_roundtrip_model_nonvacuous : rt_outcome ex_rt = Some (true, true, 3%nat).
+Proof. exact ex_rt_facts. Qed.
+Print Assumptions C04_roundtrip_model_nonvacuous.
